@@ -643,6 +643,33 @@ theorem with_deserialize_headers_non_struct {std : Std} {r : Rng Data} {st : DeS
     | none => left; rfl
     | some hs => right; rfl
 
+/-! ## the builder: the last configuration call wins -/
+
+/-- Whatever constructor a builder came from and whatever `has_headers` calls came before, the LAST
+    `has_headers(yes)` alone decides: `Headers::All` for `true`, `Headers::None` for `false`; without any such
+    call the constructor's configuration stands. -/
+theorem builder_last_call_wins (start : Headers) (calls : List Bool) :
+    builderCalls start calls = (match calls.getLast? with
+      | some true => .all
+      | some false => .none
+      | none => start) := by
+  induction calls generalizing start with
+  | nil => rfl
+  | cons c cs ih =>
+    have h : builderCalls start (c :: cs) = builderCalls (hasHeaders start c) cs := rfl
+    rw [h, ih]
+    cases cs with
+    | nil => cases c <;> rfl
+    | cons d ds =>
+      rw [List.getLast?_cons_cons]
+      have : (d :: ds).getLast? = some ((d :: ds).getLast (by simp)) := List.getLast?_eq_some_getLast (by simp)
+      rw [this]
+      cases (d :: ds).getLast (by simp) <;> rfl
+
+/-- in particular `has_headers(false)` followed by `has_headers(true)` is a plain header-reading builder again -/
+theorem builder_reenable (start : Headers) :
+    builderCalls start [false, true] = builderNew ∧ builderCalls start [true, false] = .none := ⟨rfl, rfl⟩
+
 /-! ## the hypotheses are satisfiable: a concrete range away from the origin -/
 
 /-- a `Std` for the examples (no float is formatted or parsed in them) -/
